@@ -1136,13 +1136,35 @@ def gen_nextdrive(rng, k, rt=False):
             sends.append([lat, gen_elems(rng, lat, 2, valid=rng.random() < 0.9)])
         steps.append(sends)
     scale = Fraction(1, 32) if rt else Fraction(1)
-    return {'tempos': rng.sample(['2', '1/2', '4'], 2), 'host': host, 'wrap': host is None and k % 2 == 1, 'steps': steps,
-            'start': str(Fraction(rng.choice(['1/4', '1/2', '1'])) * scale), 'ints': rng.random() < 0.4}
+    pr = {'tempos': rng.sample(['2', '1/2', '4'], 2), 'host': host, 'wrap': host is None and k % 2 == 1, 'steps': steps,
+          'start': str(Fraction(rng.choice(['1/4', '1/2', '1'])) * scale), 'ints': rng.random() < 0.4}
+    if rt and host is None:
+        # routines PLAYED ON CLOCKS keep waking (small deltas) while the main thread is inside slow next() steps of another routine
+        while len(pr['steps']) < 6:
+            pr['steps'].append([[rng.choice(LATS), [['m', rng.randint(0, 99)]]]])
+        pr['slow_ms'] = rng.choice([4, 6])
+        pr['tickers'] = [{'clock': c_, 'delta': str(Fraction(1, 256) * (Fraction(pr['tempos'][c_[1]]) if c_ != 'S' else 1)), 'n': rng.randint(10, 14),
+                          'lat': rng.choice(['0', '1/8', '1/4'])} for c_ in rng.sample(['S', ['T', 0], ['T', 1]], 2)]
+    return pr
 
 
 def nextdrive_items(pr, o, mode):
     """-> (coq items, direct failures)"""
     items, bad = [], []
+    F = Fraction
+    if pr.get('tickers') and o.get('tickers_done'):
+        for spec, lst in zip(pr['tickers'], o['tickers']):
+            c_ = spec['clock']
+            tp = F(1) if c_ == 'S' else F(pr['tempos'][c_[1]])
+            d, L = F(spec['delta']), F(spec['lat'])
+            s0, b0 = F(lst[0][0]), F(lst[0][1])
+            for i, (s_, b_, tag) in enumerate(lst):
+                es, eb = s0 + i * d / tp, b0 + i * d
+                if F(s_) != es or F(b_) != eb or (tag is not None and int(tag) - int(o['osc_offset']) != (es + L) * (1 << 32)):
+                    bad.append('a routine playing on %s while the main thread steps another routine with next(): resumption %d has logical seconds / beats '
+                               '%s / %s and timetag - offset %s, expected %s / %s and (seconds + %s) * 2^32 (it must keep its own scheduled time, not the '
+                               'time of the routine the main thread is inside)' % (clock_name(c_), i, s_, b_, None if tag is None else int(tag) - int(o['osc_offset']), es, eb, L))
+                    break
     for j, rec in enumerate(o['steps']):
         T = rec['T']
         if 'bounds' in rec and not (Fraction(rec['bounds'][0]) <= Fraction(T) <= Fraction(rec['bounds'][1])):
@@ -1378,3 +1400,31 @@ def fntask_times(pr, o, mode):
     if pr.get('again') is not None:
         out.append(t1 + dur(pr['clock'], F(pr['again'])))
     return out
+
+
+# ------------------------------------------------------------------ round 10 (C05): many pending routines, many re-timings
+def gen_retime_prog(rng):
+    """NRT: 5-9 routines pending on one TempoClock (different deltas, started in non-increasing order of their first delta, some on a
+    second TempoClock / SystemClock) while other routines change the tempo 3-6 times: every change re-times (removes and re-adds) every
+    pending wake-up of that clock, so the scheduler queue fills with replaced entries several times over."""
+    tempos = [rng.choice(['1', '2', '1/2', '4']), rng.choice(['2', '1'])]
+    n = rng.randint(5, 9)
+    ds = sorted([Fraction(rng.choice([3, 5, 7, 9, 11, 13, 17, 19, 23]), 16) for _ in range(n)], reverse=rng.random() < 0.7)
+    bodies = [[]]
+    mid = 0
+    for j in range(n):
+        b = []
+        for _ in range(rng.randint(3, 6)):
+            b += [['Y', str(ds[j] if rng.random() < 0.7 else Fraction(rng.choice([1, 3, 5, 7]), 8))]]
+            if rng.random() < 0.3:
+                b.append(['S', rng.choice(['0', '1/4', None]), mid]); mid += 1
+        bodies.append(b)
+        bodies[0].append(['P', len(bodies) - 1, ['T', 0] if rng.random() < 0.8 else rng.choice([['T', 1], 'S'])])
+    for c_ in range(rng.randint(1, 2)):               # the changers (SystemClock / the clock itself)
+        ch = []
+        for _ in range(rng.randint(2, 4)):
+            ch += [['Y', str(Fraction(rng.choice([1, 3, 5, 7]), 32) + Fraction(rng.choice([0, 1, 2]), 4))], ['T', 0, rng.choice(['1', '2', '4', '1/2', '1/4'])]]
+        bodies.append(ch)
+        bodies[0].insert(rng.randint(0, len(bodies[0])), ['P', len(bodies) - 1, rng.choice(['S', 'S', ['T', 0]])])
+    p = {'tempos': tempos, 'bodies': bodies, 'main': [['P', 0, 'S']], 'tail': '0', 'ints': rng.random() < 0.3, 'addr': rng.choice(ADDR_KINDS)}
+    return p
